@@ -22,7 +22,7 @@ def scratch_copy():
 
 def run_check(d, prop, only=None):
     env = dict(os.environ, BSVC_REPO=d, BSVC_NO_NATIVE='1')
-    cmd = [os.path.join(ROOT, 'check'), prop] + (['--only', only] if only else [])
+    cmd = [os.path.join(ROOT, 'check'), prop, '--tier', 'quick'] + (['--only', only] if only else [])
     p = subprocess.run(cmd, cwd=ROOT, env=env, stdout=subprocess.PIPE, stderr=subprocess.STDOUT)
     out = p.stdout.decode(errors='replace')
     viol = [l for l in out.split('\n') if l.startswith('VIOLATION')]
